@@ -69,33 +69,35 @@ type W3Cfg struct {
 }
 
 type simNode struct {
-	idx        int
-	id         uint64
-	port       string
-	addr       string
-	dir        string
-	join       []string
-	inc        int // incarnation
-	alive      bool
-	dead       map[int]bool // incarnations that crashed
-	gone       map[int]bool // ... and whose teardown (raft groups stopped, database closed) is complete
-	server     *anndb.Server
-	parts      *anndb.VerifParts
-	svcData    pb.DataManagerServer
-	svcDM      pb.DatasetManagerServer
-	svcSrch    pb.SearchServer
-	svcNM      pb.NodesManagerServer
-	hookHit    int // durable-write boundary hits of the current incarnation
-	crashAt    int // crash when hookHit reaches this (0: never)
-	errAt      int // the errAt-th next Save / local snapshot fails with a disk error (0: never)
-	errSeen    int
-	diskErrInc int // incarnation that was handed a disk error (its log.Fatal is the legal reaction)
-	fatal      []string
-	stalled    bool
-	joined     bool          // JoinCluster returned: cmd/anndb would now be serving
-	joinAct    time.Duration // simulated time of the node's last join activity (handshake begun or returned), -1: none
-	retired    bool          // removed from the cluster and taken out of service for good
-	limbo      bool          // a removal was requested but never acknowledged: the node runs on, nothing is asserted about it
+	idx         int
+	id          uint64
+	port        string
+	addr        string
+	dir         string
+	join        []string
+	inc         int // incarnation
+	alive       bool
+	dead        map[int]bool // incarnations that crashed
+	gone        map[int]bool // ... and whose teardown (raft groups stopped, database closed) is complete
+	server      *anndb.Server
+	parts       *anndb.VerifParts
+	svcData     pb.DataManagerServer
+	svcDM       pb.DatasetManagerServer
+	svcSrch     pb.SearchServer
+	svcNM       pb.NodesManagerServer
+	hookHit     int // durable-write boundary hits of the current incarnation
+	crashAt     int // crash when hookHit reaches this (0: never)
+	errAt       int // the errAt-th next Save / local snapshot fails with a disk error (0: never)
+	errSeen     int
+	diskErrInc  int  // incarnation that was handed a disk error (its log.Fatal is the legal reaction)
+	errStays    bool // the disk stays full: every later write of the incarnation fails as well
+	diskFullInc int
+	fatal       []string
+	stalled     bool
+	joined      bool          // JoinCluster returned: cmd/anndb would now be serving
+	joinAct     time.Duration // simulated time of the node's last join activity (handshake begun or returned), -1: none
+	retired     bool          // removed from the cluster and taken out of service for good
+	limbo       bool          // a removal was requested but never acknowledged: the node runs on, nothing is asserted about it
 }
 
 type simCall struct {
@@ -847,12 +849,20 @@ func (s *Sim) ioHook(db *badger.DB, group uuid.UUID, op string, before bool) err
 	if before {
 		n.hookHit++
 	}
+	if before && n.diskFullInc != 0 && n.diskFullInc == n.inc && (strings.HasPrefix(op, "save") || op == "snapshot") {
+		// the disk stays full until somebody makes room (the process is restarted)
+		s.out.Stat("fault_disk_error_repeated", 1)
+		return syscall.ENOSPC
+	}
 	if before && n.errAt > 0 && (strings.HasPrefix(op, "save") || op == "snapshot") {
 		n.errSeen++
 		if n.errSeen >= n.errAt {
 			// the disk refuses the write (full disk): nothing is written
 			n.errAt, n.errSeen = 0, 0
 			n.diskErrInc = n.inc
+			if n.errStays {
+				n.diskFullInc = n.inc
+			}
 			idx := n.idx
 			s.out.Stat("fault_disk_error_"+op, 1)
 			s.post(func() { s.logf("n%d: disk error injected at %s of group %s", idx, op, shortG(group)) })
